@@ -112,6 +112,10 @@ func Run(c *vmc.Chooser, opts Opts, main func()) Outcome {
 // Log returns the recorded schedule of the last/ongoing execution (Opts.Log).
 func (s *S) Log() []string { return s.log }
 
+// Observer, if set by the harness, runs at every scheduling point in the
+// token holder's context (it must not call shim operations).
+var Observer func()
+
 // LastLog is set by Run when Opts.Log is on.
 var LastLog []string
 
@@ -190,6 +194,9 @@ func (s *S) finish() {
 func (s *S) reschedule(self *thread) {
 	for {
 		s.out.Steps++
+		if Observer != nil {
+			Observer()
+		}
 		if s.out.Steps > s.maxSteps {
 			s.out.Horizon = true
 			s.abort()
@@ -528,4 +535,20 @@ func Select(hasDefault bool, cases ...Case) int {
 	}
 	// Go chooses uniformly among ready cases: a free choice for the explorer
 	return ready[s.c.Choose(len(ready), 0, "select-case")]
+}
+
+// RealSelect is the fallback of a rewritten select when no controlled
+// execution is active (harness set-up code): it polls readiness.
+func RealSelect(hasDefault bool, cases ...Case) int {
+	for {
+		for i, c := range cases {
+			if c.ready() {
+				return i
+			}
+		}
+		if hasDefault {
+			return -1
+		}
+		time.Sleep(50 * time.Microsecond)
+	}
 }
